@@ -354,3 +354,274 @@ Proof.
   destruct (len (held p ++ new) <? len rest); [discriminate E|].
   destruct (negb (is_final s') && (len rest =? cap p)); injection E as <- <- <-; exact Ho.
 Qed.
+
+(* ------------------------------------------------------------------------------------------ *)
+(* Part 1a: the transport's poll_read, by segment                                               *)
+(* ------------------------------------------------------------------------------------------ *)
+
+Notation flat := (flat_map (fun s : N * N * bytes => snd s)).
+
+Definition gate_met (c : N * N) (ge gm : N) : Prop := ge <= fst c /\ gm <= snd c.
+
+Lemma skip_split s : exists E, s = E ++ skip_empty_segs s /\ flat E = [].
+Proof.
+  induction s as [|[[ge gm] b] t IH]; [exists []; split; reflexivity|].
+  destruct b as [|x b]; [|exists []; split; reflexivity].
+  destruct IH as (E & H1 & H2). exists ((ge, gm, []) :: E). cbn [skip_empty_segs]. split.
+  - cbn [app]. f_equal. exact H1.
+  - cbn [flat_map snd app]. exact H2.
+Qed.
+
+Lemma skip_app_empty E s : flat E = [] -> skip_empty_segs (E ++ s) = skip_empty_segs s.
+Proof.
+  induction E as [|[[ge gm] b] t IH]; intros H; [reflexivity|].
+  cbn [flat_map snd] in H. apply app_eq_nil in H. destruct H as [-> H]. cbn [app skip_empty_segs]. apply IH, H.
+Qed.
+
+(* what one poll_read does to the segment list; a delivery or a block names the segment and its gate *)
+Lemma t_poll_read_segs L w p w' : t_poll_read L w = (p, w') ->
+  match p with
+  | PReady (inl b) =>
+      (b = [] /\ exists E, flat E = [] /\ segs w = E ++ segs w') \/
+      (exists E ge gm bb rest n, flat E = [] /\ segs w = E ++ (ge, gm, bb) :: rest /\ bb <> [] /\ b = take n bb /\
+          segs w' = (ge, gm, drop n bb) :: rest /\ gate_met (counts (wlog w)) ge gm)
+  | PBlock => exists E ge gm bb rest, flat E = [] /\ segs w = E ++ (ge, gm, bb) :: rest /\ bb <> [] /\
+                ~ gate_met (counts (wlog w)) ge gm
+  | _ => exists E, flat E = [] /\ segs w = E ++ segs w'
+  end.
+Proof.
+  unfold t_poll_read. destruct (L =? 0).
+  { intros E. injection E as <- <-. left. split; [reflexivity|]. exists []. split; reflexivity. }
+  destruct (skip_split (segs w)) as (E0 & HE & HF).
+  destruct (skip_empty_segs (segs w)) as [|[[ge gm] b] rest] eqn:Es.
+  { intros E. injection E as <- <-. left. split; [reflexivity|]. exists E0. split; [exact HF|exact HE]. }
+  pose proof (skip_head_nonempty _ _ _ _ _ Es) as Hb.
+  destruct (count_records (length (wlog w)) (wlog w) 0 0) as [e m] eqn:Ec.
+  assert (Hc : counts (wlog w) = (e, m)) by exact Ec.
+  destruct ((e <? ge) || (m <? gm)) eqn:Eg.
+  { intros E. injection E as <- <-. exists E0, ge, gm, b, rest. split; [exact HF|]. split; [exact HE|]. split; [exact Hb|].
+    rewrite Hc. unfold gate_met. cbn [fst snd]. lia. }
+  assert (Hmet : gate_met (counts (wlog w)) ge gm) by (rewrite Hc; unfold gate_met; cbn [fst snd]; lia).
+  assert (WAKE : forall rs', exists E, flat E = [] /\ segs w = E ++ segs (w_set_r w rs' ((ge, gm, b) :: rest) (consumed w))).
+  { intros rs'. exists E0. split; [exact HF|exact HE]. }
+  assert (READ : forall rs' n,
+     (take n b = [] /\ exists E, flat E = [] /\ segs w = E ++ segs (w_set_r w rs' ((ge, gm, drop n b) :: rest) (consumed w + n))) \/
+     (exists E ge0 gm0 bb rest0 n0, flat E = [] /\ segs w = E ++ (ge0, gm0, bb) :: rest0 /\ bb <> [] /\ take n b = take n0 bb /\
+          segs (w_set_r w rs' ((ge, gm, drop n b) :: rest) (consumed w + n)) = (ge0, gm0, drop n0 bb) :: rest0 /\
+          gate_met (counts (wlog w)) ge0 gm0)).
+  { intros rs' n. right. exists E0, ge, gm, b, rest, n. split; [exact HF|]. split; [exact HE|]. split; [exact Hb|].
+    split; [reflexivity|]. split; [reflexivity|exact Hmet]. }
+  destruct (rscript w) as [|r t]; cbv beta iota zeta.
+  - destruct (L =? 0); [intros E; injection E as <- <-; apply WAKE|].
+    destruct (L =? R_ERR); intros E; injection E as <- <-; [apply WAKE|apply READ].
+  - destruct (r =? 0); [intros E; injection E as <- <-; apply WAKE|].
+    destruct (r =? R_ERR); intros E; injection E as <- <-; [apply WAKE|apply READ].
+Qed.
+
+Lemma gated_next w : gated w ->
+  exists ge gm, next_gate w = Some (ge, gm) /\ (fst (counts (wlog w)) < ge \/ snd (counts (wlog w)) < gm).
+Proof.
+  intros G. specialize (G 1 ltac:(lia)). apply t_poll_read_segs in G.
+  destruct G as (E & ge & gm & bb & rest & HF & HS & Hbb & Hn). exists ge, gm. split.
+  - unfold next_gate. rewrite HS, (skip_app_empty _ _ HF). destruct bb as [|x bb]; [contradiction|reflexivity].
+  - unfold gate_met in Hn. lia.
+Qed.
+
+(* ------------------------------------------------------------------------------------------ *)
+(* Part 1b: the invariant of a peer whose gates ask only for replies owed                        *)
+(* ------------------------------------------------------------------------------------------ *)
+Section Peer.
+Variable maxc : N.
+
+(* [new]: bytes read but not yet fed to the parser.  Every gate of a segment still to come is met by the log
+   completed by the replies owed for the bytes before that segment; the log so completed is a sequence of records *)
+Definition G (a : ast) (log new : bytes) (sg : list (N * N * bytes)) : Prop :=
+  forall pre ge gm b post, sg = pre ++ (ge, gm, b) :: post -> b <> [] ->
+    gate_met (counts (log ++ R maxc a (new ++ flat pre))) ge gm.
+Definition W (a : ast) (log new : bytes) : Prop := forall x, bytes_ok x -> whole (log ++ R maxc a (new ++ x)).
+Definition GW (a : ast) (log new : bytes) (sg : list (N * N * bytes)) : Prop := G a log new sg /\ W a log new.
+
+Lemma GW_step a a' log fl new sg : (forall u, R maxc a (new ++ u) = fl ++ R maxc a' u) ->
+  GW a log new sg -> GW a' (log ++ fl) [] sg.
+Proof.
+  intros H [HG HW]. split.
+  - intros pre ge gm b post E Hb. cbn [app]. rewrite <- app_assoc, <- H. apply (HG pre ge gm b post E Hb).
+  - intros x Hx. cbn [app]. rewrite <- app_assoc, <- H. apply HW, Hx.
+Qed.
+
+Lemma GW_step0 a a' log new sg : (forall u, R maxc a (new ++ u) = R maxc a' u) -> GW a log new sg -> GW a' log [] sg.
+Proof. intros H HI. rewrite <- (app_nil_r log). apply (GW_step a a' log [] new sg); [exact H|exact HI]. Qed.
+
+Lemma GW_skip a log new E s : flat E = [] -> GW a log new (E ++ s) -> GW a log new s.
+Proof.
+  intros HF [HG HW]. split; [|exact HW]. intros pre ge gm b post Es Hb.
+  specialize (HG (E ++ pre) ge gm b post). rewrite flat_map_app, HF in HG. cbn [app] in HG. apply HG; [|exact Hb].
+  rewrite Es, app_assoc. reflexivity.
+Qed.
+
+Lemma GW_whole_log a log sg : R maxc a [] = [] -> GW a log [] sg -> whole log.
+Proof.
+  intros Hq [_ HW]. specialize (HW [] ltac:(constructor)). cbn [app] in HW. rewrite Hq, app_nil_r in HW. exact HW.
+Qed.
+
+(* a delivery: the gate of the segment read from was met when it was read, and counting only grows *)
+Lemma GW_read a log E ge gm bb rest n : a_inv a -> a_out a = [] -> R maxc a [] = [] -> bytes_ok (take n bb) ->
+  flat E = [] -> GW a log [] (E ++ (ge, gm, bb) :: rest) -> gate_met (counts log) ge gm ->
+  GW a log (take n bb) ((ge, gm, drop n bb) :: rest).
+Proof.
+  intros Ha Ho Hq Hb HF HI Hm. pose proof (GW_whole_log _ _ _ Hq HI) as Hlog. destruct HI as [HG HW]. split.
+  - intros pre ge' gm' b' post Es Hb'. destruct pre as [|s0 pre2].
+    + cbn [app] in Es. injection Es as <- <- _ _. cbn [flat_map]. rewrite app_nil_r.
+      assert (Hw : whole (R maxc a (take n bb))).
+      { apply replies_whole_partial_proof; [exact Ha|exact Hb|rewrite Ho; apply whole_nil]. }
+      pose proof (counts_mono log _ Hlog Hw) as Hmo. unfold gate_met in *. lia.
+    + cbn [app] in Es. injection Es as <- Erest.
+      specialize (HG (E ++ (ge, gm, bb) :: pre2) ge' gm' b' post).
+      rewrite flat_map_app, HF in HG. cbn [app flat_map snd] in HG.
+      cbn [flat_map snd]. rewrite app_assoc, take_drop. apply HG; [|exact Hb'].
+      rewrite Erest, <- app_assoc. reflexivity.
+  - intros x Hx. apply (HW (take n bb ++ x)). apply bytes_ok_app. split; assumption.
+Qed.
+
+(* a block is impossible *)
+Lemma GW_block a log E ge gm bb rest : R maxc a [] = [] -> flat E = [] -> bb <> [] ->
+  GW a log [] (E ++ (ge, gm, bb) :: rest) -> gate_met (counts log) ge gm.
+Proof.
+  intros Hq HF Hbb [HG _]. specialize (HG E ge gm bb rest eq_refl Hbb). rewrite HF in HG. cbn [app] in HG.
+  rewrite Hq, app_nil_r in HG. exact HG.
+Qed.
+
+Lemma GW_init a log sg : a_inv a -> whole log -> whole (a_out a) -> bytes_ok (flat sg) ->
+  gates_owed_only maxc a (counts log) sg -> GW a log [] sg.
+Proof.
+  intros Ha Hl Ho Hb Hg. split.
+  - intros pre ge gm b post Es Hbb. cbn [app].
+    assert (Hp : bytes_ok (flat pre)).
+    { rewrite Es, flat_map_app in Hb. apply bytes_ok_app in Hb. apply Hb. }
+    rewrite (counts_app_proof log _ Hl (replies_whole_partial_proof maxc a _ Ha Hp Ho)).
+    exact (Hg pre ge gm b post Es Hbb).
+  - intros x Hx. cbn [app]. apply whole_app; [exact Hl|apply replies_whole_partial_proof; assumption].
+Qed.
+
+(* ------------------------------------------------------------------------------------------ *)
+(* Part 1c: poll_input once more: the conservation law for every continuation, and the invariant *)
+(* ------------------------------------------------------------------------------------------ *)
+
+(* [rd]: the bytes taken from the client, [fl]: the bytes appended to the log; for EVERY continuation u *)
+Definition law (new : bytes) (r : rstate) (w : world) (r' : rstate) (w' : world) : Prop :=
+  exists rd fl, remaining w = rd ++ remaining w' /\ wlog w' = wlog w ++ fl /\
+    forall u, R maxc (abs (rsp r)) (new ++ rd ++ u) = fl ++ R maxc (abs (rsp r')) u.
+
+Definition inv (r : rstate) (w : world) (new : bytes) : Prop := GW (abs (rsp r)) (wlog w) new (segs w).
+
+Lemma law_refl r w : law [] r w r w.
+Proof. exists [], []. split; [reflexivity|]. split; [symmetry; apply app_nil_r|]. intros u. reflexivity. Qed.
+
+Lemma law_trans new r w r1 w1 b w1' r2 w2 :
+  law new r w r1 w1 -> remaining w1 = b ++ remaining w1' -> wlog w1' = wlog w1 -> law b r1 w1' r2 w2 ->
+  law new r w r2 w2.
+Proof.
+  intros (rd1 & fl1 & A1 & A2 & A3) Hb Hl (rd2 & fl2 & B1 & B2 & B3).
+  exists (rd1 ++ b ++ rd2), (fl1 ++ fl2). split; [rewrite A1, Hb, B1, <- !app_assoc; reflexivity|].
+  split; [rewrite B2, Hl, A2, app_assoc; reflexivity|].
+  intros u. rewrite <- !app_assoc. rewrite A3, B3, app_assoc. reflexivity.
+Qed.
+
+Lemma inv_world r w w' new : wlog w' = wlog w -> segs w' = segs w -> inv r w new -> inv r w' new.
+Proof. intros H1 H2 H. unfold inv. rewrite H1, H2. exact H. Qed.
+
+Lemma input_loop_peer : forall fuel dest new r w p r' w',
+  pinv (rsp r) -> bytes_ok (remaining w) -> bytes_ok new -> len new <= sinput_space (rsp r) ->
+  (dest <> None -> stream_buffer (rsp r) = []) -> dest <> Some 0 ->
+  (length (wscript w) + length (remaining w) + 2 <= fuel)%nat ->
+  input_loop maxc fuel dest new r w = (p, r', w') ->
+  law new r w r' w' /\ (inv r w new -> p <> PBlock /\ inv r' w' []).
+Proof.
+  induction fuel as [|f IH]; intros dest new r w p r' w' Hinv Hrem Hnew Hfit Hd Hd0 Hf E; [lia|].
+  cbn [input_loop] in E.
+  pose proof (sparse_step maxc (rsp r) new dest Hinv Hnew Hfit Hd) as SS.
+  destruct (sparse maxc (rsp r) new dest) as [p1 s|p1 e s|n] eqn:ESP; [| |contradiction].
+  2:{ injection E as <- <- <-. destruct SS as (SO & _). split.
+      - exists [], []. split; [reflexivity|]. split; [symmetry; apply app_nil_r|]. intros u. cbn [app rsp].
+        apply (so_R _ _ _ _ _ _ SO).
+      - intros HI. split; [discriminate|]. unfold inv. cbn [rsp wlog segs].
+        apply (GW_step0 _ _ _ _ _ (so_R _ _ _ _ _ _ SO) HI). }
+  destruct SS as (SO & Hend).
+  destruct (s_end s || (0 <? s_stream s)) eqn:Edone.
+  { assert (DONE : forall r2, rsp r2 = p1 -> law new r w r2 w /\ (inv r w new -> inv r2 w [])).
+    { intros r2 H2. split.
+      - exists [], []. split; [reflexivity|]. split; [symmetry; apply app_nil_r|]. intros u. cbn [app]. rewrite H2.
+        apply (so_R _ _ _ _ _ _ SO).
+      - intros HI. unfold inv. rewrite H2. apply (GW_step0 _ _ _ _ _ (so_R _ _ _ _ _ _ SO) HI). }
+    match type of E with (_, (if ?c then _ else _), _) = _ => destruct c end; injection E as <- <- <-;
+      (match goal with |- law _ _ _ ?rr _ /\ _ => destruct (DONE rr eq_refl) as [D1 D2] end; split; [exact D1|]; intros HI; split; [discriminate|apply D2, HI]). }
+  apply orb_false_iff in Edone. destruct Edone as [Eend Estr].
+  assert (Hz : s_stream s = 0) by (destruct (N.ltb_spec 0 (s_stream s)); [discriminate|lia]).
+  assert (Hsb1 : stream_buffer p1 = stream_buffer (rsp r)).
+  { destruct dest as [c|].
+    - destruct (so_some _ _ _ _ _ _ SO c eq_refl) as (A & _). rewrite A. symmetry. apply Hd. discriminate.
+    - destruct (so_none _ _ _ _ _ _ SO eq_refl) as (_ & d & B & C). rewrite B.
+      assert (d = []) by (apply len_zero_nil; lia). subst d. apply app_nil_r. }
+  pose proof (so_inv _ _ _ _ _ _ SO) as [RI1 I1].
+  destruct (compress_views p1 RI1) as (V1 & V2 & V3 & V4 & V5 & V6).
+  pose proof (compress_abs p1 RI1) as CA.
+  set (r2 := mkR (compress p1) (rwriteable r) (rlock r) (raborted r)) in E.
+  assert (Hinv2 : pinv (rsp r2)).
+  { split; [exact V1|]. cbn [r2 rsp]. rewrite CA. apply compress_inv. exact I1. }
+  destruct (poll_output (S f) r2 w) as [[po r3] w0] eqn:EPO.
+  destruct (poll_output_abs _ _ _ _ _ _ EPO Hinv2 ltac:(lia))
+    as (fl & P1 & P2 & P3 & P4 & P5 & P6 & P7 & P8 & P9 & P10 & P11 & P12).
+  cbn [r2 rsp rwriteable] in P4, P5, P6, P7, P8, P9, P11.
+  pose proof (same_but_io_remaining _ _ P2) as Prem.
+  assert (Psegs : segs w0 = segs w) by apply P2.
+  assert (PR : forall u, R maxc (abs (rsp r)) (new ++ u) = fl ++ R maxc (abs (rsp r3)) u).
+  { intros u. rewrite (so_R _ _ _ _ _ _ SO u), P5.
+    rewrite <- (R_split maxc (abs (compress p1)) fl (output_buffer (rsp r3)) u) by exact P4.
+    rewrite CA. reflexivity. }
+  assert (HQ : output_buffer (rsp r3) = [] -> R maxc (abs (rsp r3)) [] = []).
+  { intros Ho. rewrite P5, Ho, CA, R_set_out_compress.
+    apply (sparse_quiet maxc (rsp r) new dest p1 s Hinv Hnew Hfit Hd Hd0 ESP Eend Hz). }
+  assert (LAW0 : forall w1, remaining w1 = remaining w0 -> wlog w1 = wlog w0 -> law new r w r3 w1).
+  { intros w1 Q1 Q2. exists [], fl. split; [rewrite Q1, Prem; reflexivity|]. split; [rewrite Q2; exact P1|].
+    intros u. cbn [app]. apply PR. }
+  assert (INV0 : inv r w new -> GW (abs (rsp r3)) (wlog w0) [] (segs w0)).
+  { intros HI. rewrite P1, Psegs. apply (GW_step _ _ _ _ _ _ PR HI). }
+  assert (Hsb3 : stream_buffer (rsp r3) = stream_buffer (rsp r)) by (rewrite P6, V2; exact Hsb1).
+  destruct po as [[u|k]| |].
+  - destruct (t_poll_read (sinput_space (rsp r3)) w0) as [pr w1] eqn:ER.
+    destruct (t_poll_read_rem _ _ _ _ ER) as (T1 & T2 & T3 & T4).
+    pose proof (t_poll_read_segs _ _ _ _ ER) as S2.
+    destruct pr as [[b|k]| |]; cbv beta iota in S2.
+    + destruct T4 as (Tr & Tl & Tnil). destruct b as [|x b'].
+      * injection E as <- <- <-. split; [apply LAW0; [rewrite Tr; reflexivity|exact T1]|].
+        intros HI. split; [discriminate|]. unfold inv. rewrite T1.
+        destruct S2 as [(_ & E0 & HF & HS)|(E0 & ge & gm & bb & rest & n & HF & HS & Hbb & Hb & HS' & Hm)].
+        -- apply (GW_skip _ _ _ E0 _ HF). pose proof (INV0 HI) as H0; rewrite HS in H0; exact H0.
+        -- rewrite HS', Hb. apply (GW_read _ _ E0); [apply P10|exact P12|apply HQ, P12|rewrite <- Hb; constructor|exact HF| |exact Hm].
+           pose proof (INV0 HI) as H0; rewrite HS in H0; exact H0.
+      * assert (Hb : bytes_ok (x :: b' ++ remaining w1)) by (rewrite <- Prem, Tr in Hrem; exact Hrem).
+        change (x :: b' ++ remaining w1) with ((x :: b') ++ remaining w1) in Hb. apply bytes_ok_app in Hb.
+        assert (Hf' : (length (wscript w1) + length (remaining w1) + 2 <= f)%nat).
+        { rewrite T2. pose proof (suffix_length _ _ P3). rewrite <- Prem, Tr in Hf.
+          cbn [app length] in Hf. rewrite app_length in Hf. lia. }
+        assert (Hd3 : dest <> None -> stream_buffer (rsp r3) = []) by (intros Hx; rewrite Hsb3; apply Hd; exact Hx).
+        destruct (IH dest (x :: b') r3 w1 p r' w' P10 (proj2 Hb) (proj1 Hb) Tl Hd3 Hd0 Hf' E) as (LAW2 & INV2).
+        split; [apply (law_trans new r w r3 w0 (x :: b') w1 r' w' (LAW0 w0 eq_refl eq_refl) Tr T1 LAW2)|].
+        intros HI. apply INV2. unfold inv. rewrite T1.
+        destruct S2 as [(Hbe & _)|(E0 & ge & gm & bb & rest & n & HF & HS & Hbb & Hbt & HS' & Hm)]; [discriminate Hbe|].
+        rewrite HS', Hbt. apply (GW_read _ _ E0); [apply P10|exact P12|apply HQ, P12|rewrite <- Hbt; exact (proj1 Hb)|exact HF| |exact Hm].
+        pose proof (INV0 HI) as H0; rewrite HS in H0; exact H0.
+    + destruct T4 as [Tr Tk]. injection E as <- <- <-. split; [apply LAW0; assumption|].
+      intros HI. split; [discriminate|]. unfold inv. rewrite T1. destruct S2 as (E0 & HF & HS).
+      apply (GW_skip _ _ _ E0 _ HF). pose proof (INV0 HI) as H0; rewrite HS in H0; exact H0.
+    + injection E as <- <- <-. split; [apply LAW0; assumption|].
+      intros HI. split; [discriminate|]. unfold inv. rewrite T1. destruct S2 as (E0 & HF & HS).
+      apply (GW_skip _ _ _ E0 _ HF). pose proof (INV0 HI) as H0; rewrite HS in H0; exact H0.
+    + destruct T4 as [-> Tg]. injection E as <- <- <-. split; [apply LAW0; reflexivity|].
+      intros HI. exfalso. destruct S2 as (E0 & ge & gm & bb & rest & HF & HS & Hbb & Hn). apply Hn.
+      apply (GW_block (abs (rsp r3)) _ E0 ge gm bb rest (HQ P12) HF Hbb). pose proof (INV0 HI) as H0; rewrite HS in H0; exact H0.
+  - injection E as <- <- <-. split; [apply LAW0; reflexivity|]. intros HI. split; [discriminate|apply INV0, HI].
+  - injection E as <- <- <-. split; [apply LAW0; reflexivity|]. intros HI. split; [discriminate|apply INV0, HI].
+  - contradiction.
+Qed.
+End Peer.
